@@ -284,9 +284,22 @@ def run_exhaustive(case, ctx, mon):
     mon.nontrivial()
 
 
+def gen_sentinel(rng, ctx):
+    """add_ngram on keys whose windows equal typical sentinel / fill patterns: n bytes of 0x00, 0xff, 0x7f, 0x80, 0x01 at the
+    start, at the end, or throughout, for every n-gram size 1..12 (rolling-window kernels tend to special-case 'no window yet'
+    or 'same as the previous window')."""
+    for b in (0x00, 0xFF, 0x7F, 0x80, 0x01):
+        for n in range(1, 13):
+            tail = bytes(rng.integers(1, 255, int(rng.integers(1, 7)), dtype=np.uint8))
+            for key in (bytes([b]) * n + tail, tail + bytes([b]) * n, bytes([b]) * (n + 3), bytes([b]) * n + tail + bytes([b]) * n):
+                yield {"type": "history", "p": pick(rng, [7, 10, 16]), "seed": pick(rng, [0, 1, 2**63 + 3]), "n": 1, "final": 0,
+                       "events": [[0, ["ngram", hx(key), n], "q"], [0, ["ungram", [hx(key), hx(tail)], n], "q"]]}
+
+
 def gen_cases(ctx):
     rng = ctx.rng("cases")
     if ctx.shard == 0 or ctx.thorough:
+        yield from gen_sentinel(rng, ctx)
         yield from gen_crafted(rng, ctx)
         yield from gen_exhaustive(rng, ctx)
     n = 3000 if ctx.quick else 10**9
